@@ -236,6 +236,9 @@ func evalAztec(c *core.Ctx, cs *core.Case) {
 	res, err := aztecdec.Decode(g)
 	if err != nil {
 		c.Fail("C03", cs, "symbol does not decode: %v", err)
+		if m := err.Error(); strings.Contains(m, "syndrome") || strings.Contains(m, "mode message") {
+			c.Fail("C12", cs, "the check words the symbol declares are not valid Reed-Solomon check words: %v", err)
+		}
 		return
 	}
 	if string(res.Content) != string(cs.S) {
